@@ -84,7 +84,7 @@ def write_recipe_cfg(instance, tag, maxcalls, shard=0, nshards=1):
              f"  InitVes <- {ri['init']}", "  Regions <- R_Regions", "  Forms <- NoC", "  Fracs <- NoS", "  TUnits <- NoS",
              "  CapStep <- One", "  RemoveCases <- NoC", "  FillCases <- NoC", "  FillDeltas <- NoS", "  DiluteCases <- NoC",
              "  DiluteYs <- NoS", "  NearTargets = FALSE", "  NewCases <- NoC", "  SolCases <- NoS", "  FromCases <- NoS", "  MaxDepth = 99",
-             "  DenBound = 2000", f"  Shard = {shard}", f"  NShards = {nshards}", f"  Alphabet <- {ri['alphabet']}",
+             f"  DenBound = {2000 if maxcalls <= 3 else 120}", f"  Shard = {shard}", f"  NShards = {nshards}", f"  Alphabet <- {ri['alphabet']}",
              f"  ObjName <- {ri['objname']}", f"  AutoUses = {'TRUE' if ri['auto_uses'] else 'FALSE'}",
              f"  MaxCalls = {maxcalls}", f"  Life = {'TRUE' if ri['life'] else 'FALSE'}", "  DSets <- R_DSets",
              "VIEW RView", "CHECK_DEADLOCK FALSE"]
